@@ -326,7 +326,7 @@ Theorem setup_permutation : forall h g dflt smode pos s0 s1 s2 n0 n1 n2 nu nv nw
   g_ao g = 0 -> setup_checks h (g_n g) smode = true ->
   axis_positions (h_axes h) = Ok pos -> h_start h = (s0, s1, s2) -> g_n g = (n0, n1, n2) ->
   n0 > 0 -> n1 > 0 -> n2 > 0 ->
-  in_int (s0 + n0) = true -> in_int (s1 + n1) = true -> in_int (s2 + n2) = true ->
+  fits_int (s0 + n0) = true -> fits_int (s1 + n1) = true -> fits_int (s2 + n2) = true ->
   (if smode =? 2 then (sel (n0, n1, n2) (sel pos 0), sel (n0, n1, n2) (sel pos 1), sel (n0, n1, n2) (sel pos 2))
    else h_samp h) = (nu, nv, nw) ->
   nu > 0 -> nv > 0 -> nw > 0 -> nu * nv * nw <= max_alloc ->
